@@ -566,6 +566,10 @@ class Exec:
             return ExternVal(base.name + '.' + attr)
         if isinstance(base, dict) and attr in ('get', 'items', 'keys', 'values'):
             return SeqMethod(base, attr)
+        if isinstance(base, tuple) and base[:1] == ('__nt__',) and attr in base[2]:
+            return base[3][base[2].index(attr)]
+        if isinstance(base, TableRow):
+            return base.field(attr)
         raise SymErr('attribute %s of %r (line %s)' % (attr, base, getattr(node, 'lineno', '?')))
 
     def index(self, sq, i, st, node, what='index'):
@@ -590,11 +594,27 @@ class Exec:
         if isinstance(base, dict):
             k = self.ev(n.slice, st)
             if isinstance(k, (SInt, SSeq, SBool)):
-                raise SymErr('dict with symbolic key')
+                hook = getattr(self.c, 'dict_model', None)
+                r = hook(self, base, k, st, n) if hook is not None else NotImplemented
+                if r is NotImplemented:
+                    raise SymErr('dict with symbolic key (line %s)' % n.lineno)
+                return r
             if k not in base:
                 self.oblige(st, False, 'no-KeyError', n)
                 return 0
             return base[k]
+        if isinstance(base, list) and base and isinstance(base[0], tuple) and base[0][:1] == ('__nt__',):
+            # a module-level table of namedtuples (e.g. P8SCII_CHARSET)
+            k = self.ev(n.slice, st)
+            if isinstance(k, int):
+                return base[k]
+            k = self.as_int(k, st, n)
+            neg = k < 0
+            with V.guarded(neg):
+                wrapped = k + len(base)
+            j = ite(neg, wrapped, k)
+            self.oblige(st, AND(j >= 0, j < len(base)), 'no-IndexError', n)
+            return TableRow(base, j)
         if isinstance(base, tuple):
             k = self.ev(n.slice, st)
             if isinstance(k, int):
@@ -978,6 +998,37 @@ def merge_any(c, a, b):
 
 
 # ---- non-data values --------------------------------------------------------
+
+class TableRow:
+    """rows[idx] of a concrete table of namedtuples at a symbolic index: fields become table functions
+    (uninterpreted functions pinned by one ground axiom per real table entry)."""
+    _cache = {}
+
+    def __init__(self, rows, idx):
+        self.rows, self.idx = rows, idx
+
+    def field(self, name):
+        fi = self.rows[0][2].index(name)
+        col = [r[3][fi] for r in self.rows]
+        key = (id(self.rows), name, E.mode, id(E.axioms))
+        if all(isinstance(x, int) for x in col):
+            return SSeq.of(col, 'list').get(self.idx)
+        if all(isinstance(x, str) for x in col):
+            fns = TableRow._cache.get(key)
+            if fns is None:
+                ln = z3.Function(E.fresh(name + '.len'), V.isort(), V.isort())
+                ch = z3.Function(E.fresh(name + '.chr'), V.isort(), V.isort(), V.isort())
+                for i, sv in enumerate(col):
+                    E.axioms.append(ln(V.iconst(i)) == V.iconst(len(sv)))
+                    for j, c in enumerate(sv):
+                        E.axioms.append(ch(V.iconst(i), V.iconst(j)) == V.iconst(ord(c)))
+                fns = (ln, ch, self.rows)
+                TableRow._cache[key] = fns
+            ln, ch, _ = fns
+            i = toint(self.idx)
+            return SSeq(SInt(ln(i)), lambda j: SInt(ch(i, toint(j))), 'str')
+        raise SymErr('table column %s of mixed type' % name)
+
 
 class FuncVal:
     def __init__(self, qual):
